@@ -308,7 +308,7 @@ func runC09(c *core.Ctx) {
 		return (o.Rule == "R2" && strings.Contains(o.Key, "single-send")) || o.Rule == "R5"
 	})
 	importObligations(c, runC01, "R5", func(o *core.Obligation) bool {
-		return strings.Contains(o.Key, "sender-owns-flag") || strings.Contains(o.Key, "start-site")
+		return strings.Contains(o.Key, "sender-owns-flag") || strings.Contains(o.Key, "start-site") || strings.Contains(o.Key, "transport-write-site")
 	})
 	importObligations(c, runC02, "R5", func(o *core.Obligation) bool {
 		return strings.Contains(o.Key, "flag-access/") || o.Rule == "R8"
@@ -317,9 +317,12 @@ func runC09(c *core.Ctx) {
 	// and are not recycled while queued (C10), and codecs hand down no scratch shared between messages (C04)
 	c.Rule("R6", "a queued message's buffer is not reused for another message before it is written (shared with C10-R1/R4/R6 and C04-R3)", 2)
 	importObligations(c, runC10, "R6", func(o *core.Obligation) bool {
-		return o.Rule == "R1" || o.Rule == "R4" || o.Rule == "R6" || o.Rule == "R8"
+		return o.Rule == "R1" || o.Rule == "R3" || o.Rule == "R4" || o.Rule == "R6" || o.Rule == "R8"
 	})
 	importObligations(c, runC04, "R6", func(o *core.Obligation) bool { return o.Rule == "R3" })
+	// the write lock and the sender flag serialise writers only if every method works on the one channel object
+	c.Rule("R8", "the channel's methods have pointer receivers (shared with C12-R11)", 1)
+	importObligations(c, runC12, "R8", func(o *core.Obligation) bool { return o.Rule == "R11" })
 	// below the single sender the wrapper keeps one write sink: a batch never overtakes bytes still buffered
 	c.Rule("R7", "transport wrappers write through one sink (shared with C17-R1)", 2)
 	importObligations(c, runC17, "R7", func(o *core.Obligation) bool { return o.Rule == "R1" || o.Rule == "R5" })
